@@ -570,6 +570,20 @@ func (m *Module) fieldByFingerprint(pkg, owner string, st *types.Struct, field s
 		ord++
 		n++
 	}
+	if hit == nil && fp.Ord == 0 {
+		// renamed AND given a named type of its own (`map[…]…` became `type senderTopics map[…]…`): the
+		// only field whose shape is the recorded one up to the marks of unexported named types
+		plain := func(sh string) string { return strings.NewReplacer("‹", "", "›", "").Replace(sh) }
+		var cands []*types.Var
+		for i := 0; i < st.NumFields(); i++ {
+			if f := st.Field(i); plain(shapeOf(f.Type(), 0)) == plain(fp.Shape) {
+				cands = append(cands, f)
+			}
+		}
+		if len(cands) == 1 {
+			hit, n = cands[0], 1
+		}
+	}
 	if hit == nil || hit.Exported() {
 		return nil
 	}
